@@ -29,6 +29,9 @@
 #ifndef VERIF_INV_CRC32_BODY_TAIL
 #define VERIF_INV_CRC32_BODY_TAIL
 #endif
+#ifndef VERIF_INV_PASS2_CHECK_NAME
+#define VERIF_INV_PASS2_CHECK_NAME
+#endif
 #ifndef VERIF_GHOST_CRC32_BODY_BYTE
 #define VERIF_GHOST_CRC32_BODY_BYTE
 #endif
